@@ -30,10 +30,11 @@ static void write_extra(const char *stats) {
 }
 
 int main(int argc, char **argv) {
-  bool exhaustive = false, nomask = false;
+  bool exhaustive = false, nomask = false, survey = false;
   for (int i = 1; i < argc; ++i) {
     if (!strcmp(argv[i], "--exhaustive")) exhaustive = true;
     if (!strcmp(argv[i], "--no-mask")) nomask = true;
+    if (!strcmp(argv[i], "--survey")) survey = exhaustive = true;  // list every failing scenario instead of stopping at the first
   }
   if (nomask) I.mask_known = false;
   uint32_t w[kFaultNumOps];
@@ -82,6 +83,10 @@ int main(int argc, char **argv) {
                 crash_area_set(bytes, 5);
                 bool failed = I.run(&o, 1);
                 crash_area_done();
+                if (failed && survey) {
+                  printf("SURVEY %s\n", c.msg);
+                  continue;
+                }
                 if (failed) {
                   result = 1;
                   failmsg = c.msg;
